@@ -39,6 +39,7 @@ type vfServerStream struct {
 	block   chan struct{} // when non-nil Send blocks until it is closed
 	delay   time.Duration // a slow reader: every Send takes this long
 	autoAck bool          // a Temporal-like receiver: acknowledges the watermark of everything it is sent
+	maxHigh int64         // greatest exclusive high watermark this stream has been sent
 }
 
 func newVfServerStream(md metadata.MD) *vfServerStream {
@@ -90,6 +91,9 @@ func (s *vfServerStream) Send(m *vfResp) error {
 	}
 	s.mu.Lock()
 	s.sent = append(s.sent, m)
+	if hw := m.GetMessages().GetExclusiveHighWatermark(); hw > s.maxHigh {
+		s.maxHigh = hw
+	}
 	cb := s.onSend
 	s.mu.Unlock()
 	if cb != nil {
